@@ -1,10 +1,523 @@
 package c13
 
 import (
+	"fmt"
+	"syscall"
+
+	re_fuse "github.com/buildbarn/bb-remote-execution/pkg/filesystem/virtual/fuse"
+	"github.com/hanwen/go-fuse/v2/fuse"
+
 	"verif/internal/ev"
 	"verif/internal/vfsh"
 )
 
-var frontEnds = []string{}
+// Protocol front ends: the same generated histories (kernel-facing operations
+// only) are issued through the FUSE RawFileSystem and through NFSv4.0/4.1
+// COMPOUNDs, and the protocol-level status codes and results are compared
+// with the mapped expectations of the reference model.
+var frontEnds = []string{"fuse", "nfs40", "nfs41"}
 
-func runFrontEndCase(r *ev.Run, phase string, cfgIdx int, base vfsh.Config, i int) {}
+// frontEnd is what a protocol driver has to provide.
+type frontEnd interface {
+	// Each call returns the status mapped to the shared status codes.
+	lookup(d *vfsh.Node, name string) (string, entryInfo)
+	create(d *vfsh.Node, name string, excl, trunc bool) (string, entryInfo)
+	openExisting(d *vfsh.Node, name string, n *vfsh.Node, trunc bool) string
+	mkdir(d *vfsh.Node, name string) (string, entryInfo)
+	mknod(d *vfsh.Node, name string, k vfsh.Kind, target string) (string, entryInfo)
+	link(d *vfsh.Node, name string, leaf *vfsh.Node) (string, entryInfo)
+	rename(d *vfsh.Node, name string, d2 *vfsh.Node, name2 string) string
+	// remove returns the status and the flags the front end really used.
+	remove(d *vfsh.Node, name string, rmDir, rmLeaf bool) (string, bool, bool)
+	// readdir returns one page of at most limit entries after cookie.
+	readdir(d *vfsh.Node, cookie uint64, limit int, plus bool) (status string, entries []vfsh.Reported, end bool)
+	getattr(n *vfsh.Node) (string, entryInfo)
+	// usable tells whether the front end can address the node at all
+	// (NFS: handles of removed objects are stale).
+	usable(n *vfsh.Node) bool
+	// mknodPrecheck returns the status the front end itself gives for a
+	// node type before reaching the file system ("" if it passes it on).
+	mknodPrecheck(k vfsh.Kind) string
+}
+
+type entryInfo struct {
+	ino   uint64
+	nlink uint32
+	kind  vfsh.Kind
+	ok    bool
+	h     any // front end specific handle (NFS file handle)
+}
+
+type feExec struct {
+	r     *ev.Run
+	phase string
+	fe    frontEnd
+	m     *vfsh.Model
+	hist  []vfsh.Step
+	cur   vfsh.Op
+	bad   func(rule, detail string)
+	calls map[string]int
+	// handles keeps the front end specific handle of every node
+	handles map[*vfsh.Node]any
+}
+
+func (x *feExec) status(want, got string) bool {
+	x.calls[x.cur.K+"/"+got]++
+	if want != got {
+		x.bad("status want="+want+" got="+got, "")
+		return false
+	}
+	return true
+}
+
+func (x *feExec) bind(n *vfsh.Node, e entryInfo) {
+	if !e.ok {
+		x.bad("returned-node-missing", "status OK without an entry")
+		return
+	}
+	if e.kind != n.Kind {
+		x.bad("returned-node-kind", fmt.Sprintf("node %d: model %v, front end %v", n.ID, n.Kind, e.kind))
+		return
+	}
+	if !n.Bound {
+		n.Bound, n.Ino = true, e.ino
+		x.handles[n] = e.h
+	} else if n.Ino != e.ino {
+		x.bad("returned-node-identity", fmt.Sprintf("node %d: inode %d, expected %d", n.ID, e.ino, n.Ino))
+	}
+	want := uint32(n.Nlink)
+	switch n.Kind {
+	case vfsh.KDir:
+		want = 1
+	case vfsh.KSymlink:
+		want = 9999
+	}
+	if e.nlink != want {
+		x.bad("link-count", fmt.Sprintf("node %d (%v): link count %d, model %d", n.ID, n.Kind, e.nlink, want))
+	}
+}
+
+// do executes one kernel-facing operation through the front end.
+func (x *feExec) do(op vfsh.Op) {
+	x.cur = op
+	m := x.m
+	step := vfsh.Step{Op: op}
+	defer func() { x.hist = append(x.hist, step) }()
+	d := m.Nodes[op.D]
+	if !x.fe.usable(d) {
+		// The front end cannot even address the directory; what it
+		// answers then is checked by getattr below.
+		st, _ := x.fe.getattr(d)
+		step.Want, step.Got = vfsh.ESTALE, st
+		x.status(vfsh.ESTALE, st)
+		return
+	}
+	switch op.K {
+	case "VirtualLookup":
+		got, e := x.fe.lookup(d, op.N)
+		r := m.Lookup(d, op.N, vfsh.EIO)
+		step.Want, step.Got = r.Status, got
+		if x.status(r.Status, got) && got == vfsh.OK {
+			x.bind(r.Node, e)
+		}
+	case "VirtualOpenChild":
+		if !op.Create {
+			// open() of an existing name: lookup, then open the node.
+			got, e := x.fe.lookup(d, op.N)
+			r := m.Lookup(d, op.N, vfsh.EIO)
+			step.Want, step.Got = r.Status, got
+			if x.status(r.Status, got) && got == vfsh.OK {
+				x.bind(r.Node, e)
+				if r.Node.Kind == vfsh.KFile {
+					st := x.fe.openExisting(d, op.N, r.Node, op.Trunc)
+					x.status(vfsh.OK, st)
+				}
+			}
+			return
+		}
+		got, e := x.fe.create(d, op.N, !op.Existing, op.Trunc)
+		r := m.OpenChild(d, op.N, true, op.Existing, false)
+		step.Want, step.Got = r.Status, got
+		if x.status(r.Status, got) && got == vfsh.OK {
+			x.bind(r.Node, e)
+		}
+	case "VirtualMkdir":
+		got, e := x.fe.mkdir(d, op.N)
+		r := m.Mkdir(d, op.N)
+		step.Want, step.Got = r.Status, got
+		if x.status(r.Status, got) && got == vfsh.OK {
+			x.bind(r.Node, e)
+		}
+	case "VirtualMknod":
+		if pre := x.fe.mknodPrecheck(op.Kind); pre != "" {
+			got, _ := x.fe.mknod(d, op.N, op.Kind, op.Target)
+			step.Want, step.Got = pre, got
+			x.status(pre, got)
+			return
+		}
+		got, e := x.fe.mknod(d, op.N, op.Kind, op.Target)
+		r := m.Mknod(d, op.N, op.Kind, op.Target, false)
+		step.Want, step.Got = r.Status, got
+		if x.status(r.Status, got) && got == vfsh.OK {
+			x.bind(r.Node, e)
+		}
+	case "VirtualLink":
+		l := m.Nodes[op.L]
+		if !x.fe.usable(l) {
+			// Whether the handle of a fully unlinked leaf still resolves
+			// depends on NFS open state (a closed file stays resolvable
+			// until the open-owner's next request): not C13's business.
+			step.Want, step.Got, step.Note = "-", "-", "skipped: leaf without links"
+			return
+		}
+		got, e := x.fe.link(d, op.N, l)
+		r := m.Link(d, op.N, l)
+		step.Want, step.Got = r.Status, got
+		if x.status(r.Status, got) && got == vfsh.OK {
+			x.bind(l, e)
+		}
+	case "VirtualRename":
+		d2 := m.Nodes[op.D2]
+		if !x.fe.usable(d2) {
+			st, _ := x.fe.getattr(d2)
+			step.Want, step.Got = vfsh.ESTALE, st
+			x.status(vfsh.ESTALE, st)
+			return
+		}
+		got := x.fe.rename(d, op.N, d2, op.N2)
+		r := m.Rename(d, op.N, d2, op.N2)
+		step.Want, step.Got = r.Status, got
+		x.status(r.Status, got)
+	case "VirtualRemove":
+		got, rmDir, rmLeaf := x.fe.remove(d, op.N, op.RmDir, op.RmLeaf)
+		r := m.Remove(d, op.N, rmDir, rmLeaf, vfsh.EIO)
+		step.Want, step.Got = r.Status, got
+		x.status(r.Status, got)
+	case "VirtualReadDir":
+		var s *vfsh.Session
+		if op.Sess > 0 {
+			s = m.Sessions[op.Sess-1]
+		} else {
+			s = m.NewSession(d, op.PageSize, op.Locked)
+		}
+		got, entries, end := x.fe.readdir(d, s.Cookie, s.PageSize, s.Locked)
+		x.calls[op.K+"/"+got]++
+		step.Want, step.Got = vfsh.OK, got
+		for _, rule := range m.Page(s, got, entries, end) {
+			x.bad(rule, fmt.Sprintf("session %d dir %d page %d cookie %d entries %v", s.ID, d.ID, s.Pages, s.Cookie, entries))
+		}
+		step.Note = fmt.Sprintf("session=%d pages=%d entries=%d end=%v", s.ID, s.Pages, len(entries), end)
+	case "VirtualGetAttributes":
+		got, e := x.fe.getattr(d)
+		step.Want, step.Got = vfsh.OK, got
+		if x.status(vfsh.OK, got) {
+			x.bind(d, e)
+		}
+	default:
+		panic("front end: unexpected operation " + op.K)
+	}
+}
+
+// finalCompare lists and looks up everything reachable through the front end.
+func (x *feExec) finalCompare(names []string) {
+	var walk func(d *vfsh.Node, depth int)
+	walk = func(d *vfsh.Node, depth int) {
+		if depth > 12 || !x.fe.usable(d) {
+			return
+		}
+		x.do(vfsh.Op{K: "VirtualReadDir", D: d.ID, PageSize: 100000, Why: "final"})
+		for _, name := range names {
+			x.do(vfsh.Op{K: "VirtualLookup", D: d.ID, N: name, Why: "final"})
+		}
+		for _, e := range append([]*vfsh.Entry(nil), d.Entries...) {
+			if e.Node.IsDir() && e.Node.Bound {
+				walk(e.Node, depth+1)
+			}
+		}
+	}
+	walk(x.m.Root, 0)
+}
+
+var finalNames = []string{"a", "b", "c", "A", "B", "._a", "._B"}
+
+func runFrontEndCase(r *ev.Run, phase string, cfgIdx int, base vfsh.Config, i int) {
+	cfg := base
+	cfg.Allocator = "nfs"
+	if phase == "fuse" {
+		cfg.Allocator = "fuse"
+	}
+	phaseNo := map[string]uint64{"fuse": 2, "nfs40": 3, "nfs41": 4}[phase]
+	rng := r.Rand(phaseNo, uint64(cfgIdx), uint64(i))
+	steps := 50 + rng.IntN(201)
+	r.Case("%s cfg=%d(%s) case=%d steps=%d", phase, cfgIdx, cfg, i, steps)
+
+	env := vfsh.NewEnv(cfg)
+	m := vfsh.NewModel(cfg, env.SymlinksShared())
+	x := &feExec{r: r, phase: phase, m: m, calls: map[string]int{}, handles: map[*vfsh.Node]any{}}
+	failed := false
+	x.bad = func(rule, detail string) {
+		if failed {
+			return
+		}
+		failed = true
+		h := x.hist
+		if len(h) > 400 {
+			h = h[len(h)-400:]
+		}
+		r.Violation("C13 "+phase+" "+rule+" op="+x.cur.K, fmt.Sprintf("cfg=%s case=%d op=%s: %s", cfg, i, x.cur, detail),
+			witness{Seed: r.Seed(), Phase: phase, Cfg: cfgIdx, CfgName: cfg.String(), Case: i, Rule: rule, Detail: detail, Op: x.cur, History: append([]vfsh.Step(nil), h...)})
+	}
+	switch phase {
+	case "fuse":
+		x.fe = newFuseFrontEnd(env, x)
+	default:
+		x.fe = newNFSFrontEnd(env, x, phase == "nfs41")
+	}
+	if st, e := x.fe.getattr(m.Root); st != vfsh.OK {
+		x.bad("root-not-addressable", st)
+	} else {
+		m.Root.Bound, m.Root.Ino = true, e.ino
+	}
+	gen := &vfsh.Gen{M: m, R: rng, P: vfsh.Profile{KernelOnly: true, NoBadTargets: true, UniqueTargets: phase == "fuse", MaxDirs: 8, MaxNames: 7}}
+	for s := 0; s < steps && !failed; s++ {
+		x.do(gen.Next())
+	}
+	if !failed {
+		x.finalCompare(finalNames)
+	}
+	r.Count(phase+"_operations", len(x.hist))
+	for k, n := range x.calls {
+		r.Count(phase+" call "+k, n)
+	}
+	nontrivial := false
+	for name, n := range m.Sit {
+		r.SituationN(name, n)
+		r.SituationN(phase+":"+name, n)
+		nontrivial = true
+	}
+	hs := []any{phase, cfg.String()}
+	for _, st := range x.hist {
+		hs = append(hs, st.Op.K, st.Op.N, st.Got)
+	}
+	r.Hash(ev.HashOf(hs...), nontrivial)
+	if i == 0 && cfgIdx == 3 && r.WantSample() {
+		h := x.hist
+		if len(h) > 40 {
+			h = h[:40]
+		}
+		r.Sample(map[string]any{"phase": phase, "cfg": cfg.String(), "case": i, "history": h})
+	}
+}
+
+// ---- FUSE -------------------------------------------------------------------------
+
+type fuseFrontEnd struct {
+	rfs re_fuse.RawFileSystem
+	x   *feExec
+}
+
+func newFuseFrontEnd(env *vfsh.Env, x *feExec) *fuseFrontEnd {
+	return &fuseFrontEnd{
+		rfs: re_fuse.NewSimpleRawFileSystem(env.Root, env.FUSEAlloc.RegisterRemovalNotifier, re_fuse.AllowAuthenticator),
+		x:   x,
+	}
+}
+
+func fuseStatusName(s fuse.Status) string {
+	switch syscall.Errno(s) {
+	case 0:
+		return vfsh.OK
+	case syscall.EIO:
+		return vfsh.EIO
+	case syscall.ENOENT:
+		return vfsh.ENOENT
+	case syscall.EEXIST:
+		return vfsh.EEXIST
+	case syscall.EISDIR:
+		return vfsh.EISDIR
+	case syscall.ENOTDIR:
+		return vfsh.ENOTDIR
+	case syscall.ENOTEMPTY:
+		return vfsh.ENOTEMPTY
+	case syscall.EPERM:
+		return vfsh.EPERM
+	case syscall.EXDEV:
+		return vfsh.EXDEV
+	case syscall.ESTALE:
+		return vfsh.ESTALE
+	case syscall.EOPNOTSUPP:
+		return vfsh.ESYMLINK
+	case syscall.EINVAL:
+		return vfsh.EINVAL
+	}
+	return fmt.Sprintf("errno%d", int(s))
+}
+
+func modeKind(mode uint32) vfsh.Kind {
+	switch mode & syscall.S_IFMT {
+	case syscall.S_IFDIR:
+		return vfsh.KDir
+	case syscall.S_IFREG:
+		return vfsh.KFile
+	case syscall.S_IFLNK:
+		return vfsh.KSymlink
+	case syscall.S_IFIFO:
+		return vfsh.KFIFO
+	case syscall.S_IFSOCK:
+		return vfsh.KSocket
+	}
+	return vfsh.KBlock
+}
+
+func (f *fuseFrontEnd) id(n *vfsh.Node) uint64 {
+	if n == f.x.m.Root {
+		return fuse.FUSE_ROOT_ID
+	}
+	return n.Ino
+}
+
+func (f *fuseFrontEnd) hdr(n *vfsh.Node) fuse.InHeader { return fuse.InHeader{NodeId: f.id(n)} }
+
+func entryOf(out *fuse.EntryOut) entryInfo {
+	return entryInfo{ino: out.Attr.Ino, nlink: out.Attr.Nlink, kind: modeKind(out.Attr.Mode), ok: out.NodeId == out.Attr.Ino && out.NodeId != 0}
+}
+
+func (f *fuseFrontEnd) usable(n *vfsh.Node) bool { return true }
+func (f *fuseFrontEnd) mknodPrecheck(k vfsh.Kind) string {
+	return map[bool]string{true: vfsh.EPERM}[k == vfsh.KBlock || k == vfsh.KFile]
+}
+
+func (f *fuseFrontEnd) lookup(d *vfsh.Node, name string) (string, entryInfo) {
+	var out fuse.EntryOut
+	h := f.hdr(d)
+	s := f.rfs.Lookup(nil, &h, name, &out)
+	return fuseStatusName(s), entryOf(&out)
+}
+
+func (f *fuseFrontEnd) create(d *vfsh.Node, name string, excl, trunc bool) (string, entryInfo) {
+	flags := uint32(syscall.O_RDWR | syscall.O_CREAT)
+	if excl {
+		flags |= syscall.O_EXCL
+	}
+	if trunc {
+		flags |= syscall.O_TRUNC
+	}
+	var out fuse.CreateOut
+	s := f.rfs.Create(nil, &fuse.CreateIn{InHeader: f.hdr(d), Flags: flags, Mode: 0o644}, name, &out)
+	if s == fuse.OK {
+		f.rfs.Release(nil, &fuse.ReleaseIn{InHeader: fuse.InHeader{NodeId: out.NodeId}, Flags: flags})
+	}
+	return fuseStatusName(s), entryOf(&out.EntryOut)
+}
+
+func (f *fuseFrontEnd) openExisting(d *vfsh.Node, name string, n *vfsh.Node, trunc bool) string {
+	flags := uint32(syscall.O_RDWR)
+	if trunc {
+		flags |= syscall.O_TRUNC
+	}
+	var out fuse.OpenOut
+	s := f.rfs.Open(nil, &fuse.OpenIn{InHeader: f.hdr(n), Flags: flags}, &out)
+	if s == fuse.OK {
+		f.rfs.Release(nil, &fuse.ReleaseIn{InHeader: f.hdr(n), Flags: flags})
+	}
+	return fuseStatusName(s)
+}
+
+func (f *fuseFrontEnd) mkdir(d *vfsh.Node, name string) (string, entryInfo) {
+	var out fuse.EntryOut
+	s := f.rfs.Mkdir(nil, &fuse.MkdirIn{InHeader: f.hdr(d), Mode: 0o755}, name, &out)
+	return fuseStatusName(s), entryOf(&out)
+}
+
+func (f *fuseFrontEnd) mknod(d *vfsh.Node, name string, k vfsh.Kind, target string) (string, entryInfo) {
+	var out fuse.EntryOut
+	if k == vfsh.KSymlink {
+		h := f.hdr(d)
+		s := f.rfs.Symlink(nil, &h, target, name, &out)
+		return fuseStatusName(s), entryOf(&out)
+	}
+	mode := map[vfsh.Kind]uint32{vfsh.KFIFO: syscall.S_IFIFO, vfsh.KSocket: syscall.S_IFSOCK, vfsh.KBlock: syscall.S_IFBLK, vfsh.KFile: syscall.S_IFREG}[k]
+	s := f.rfs.Mknod(nil, &fuse.MknodIn{InHeader: f.hdr(d), Mode: mode | 0o644}, name, &out)
+	return fuseStatusName(s), entryOf(&out)
+}
+
+func (f *fuseFrontEnd) link(d *vfsh.Node, name string, leaf *vfsh.Node) (string, entryInfo) {
+	var out fuse.EntryOut
+	s := f.rfs.Link(nil, &fuse.LinkIn{InHeader: f.hdr(d), Oldnodeid: f.id(leaf)}, name, &out)
+	return fuseStatusName(s), entryOf(&out)
+}
+
+func (f *fuseFrontEnd) rename(d *vfsh.Node, name string, d2 *vfsh.Node, name2 string) string {
+	return fuseStatusName(f.rfs.Rename(nil, &fuse.RenameIn{InHeader: f.hdr(d), Newdir: f.id(d2)}, name, name2))
+}
+
+func (f *fuseFrontEnd) remove(d *vfsh.Node, name string, rmDir, rmLeaf bool) (string, bool, bool) {
+	h := f.hdr(d)
+	if rmDir && rmLeaf {
+		// The kernel knows what the name refers to and picks the call.
+		if e := f.x.m.Find(d, name); e != nil && e.Node.IsDir() {
+			rmLeaf = false
+		}
+	}
+	if rmLeaf {
+		return fuseStatusName(f.rfs.Unlink(nil, &h, name)), false, true
+	}
+	return fuseStatusName(f.rfs.Rmdir(nil, &h, name)), true, false
+}
+
+type fuseDirList struct {
+	limit   int
+	entries []vfsh.Reported
+	refused bool
+	plus    []*fuse.EntryOut
+}
+
+func (l *fuseDirList) add(e fuse.DirEntry) bool {
+	if e.Name == "." || e.Name == ".." {
+		return true
+	}
+	if len(l.entries) >= l.limit {
+		l.refused = true
+		return false
+	}
+	l.entries = append(l.entries, vfsh.Reported{Name: e.Name, NextCookie: e.Off, IsDir: e.Mode&syscall.S_IFMT == syscall.S_IFDIR, Ino: e.Ino})
+	return true
+}
+
+func (l *fuseDirList) AddDirEntry(e fuse.DirEntry) bool { return l.add(e) }
+
+func (l *fuseDirList) AddDirLookupEntry(e fuse.DirEntry) *fuse.EntryOut {
+	if !l.add(e) {
+		return nil
+	}
+	out := &fuse.EntryOut{}
+	if e.Name != "." && e.Name != ".." {
+		l.plus = append(l.plus, out)
+	}
+	return out
+}
+
+func (f *fuseFrontEnd) readdir(d *vfsh.Node, cookie uint64, limit int, plus bool) (string, []vfsh.Reported, bool) {
+	l := &fuseDirList{limit: limit}
+	in := &fuse.ReadIn{InHeader: f.hdr(d), Offset: cookie}
+	var s fuse.Status
+	if plus {
+		s = f.rfs.ReadDirPlus(nil, in, l)
+		for i, out := range l.plus {
+			if out.NodeId != l.entries[i].Ino || out.Attr.Ino != l.entries[i].Ino {
+				f.x.bad("readdirplus-entry-attributes-differ", fmt.Sprintf("%q: entry inode %d, attributes inode %d node id %d", l.entries[i].Name, l.entries[i].Ino, out.Attr.Ino, out.NodeId))
+			}
+		}
+	} else {
+		s = f.rfs.ReadDir(nil, in, l)
+	}
+	return fuseStatusName(s), l.entries, !l.refused
+}
+
+func (f *fuseFrontEnd) getattr(n *vfsh.Node) (string, entryInfo) {
+	var out fuse.AttrOut
+	s := f.rfs.GetAttr(nil, &fuse.GetAttrIn{InHeader: f.hdr(n)}, &out)
+	return fuseStatusName(s), entryInfo{ino: out.Attr.Ino, nlink: out.Attr.Nlink, kind: modeKind(out.Attr.Mode), ok: true}
+}
+
+// (FUSE part ends here; the NFSv4 front end lives in nfs_frontend_test.go.)
